@@ -645,6 +645,20 @@ def run(ck):
         c17_7(ck, prog)
         c17_8(ck, prog)
         c17_10(ck, prog)
+        r = ck.rule('C17.11', 'the reply table is keyed consistently: the int-key (and uintptr-key) front ends of the hash '
+                    'table convert their key with the same written casts (lookup, insert, remove ... agree)', 'TAB',
+                    breaks='pending calls are stored by serial: once the serial has its top bit set (2^31 messages, or '
+                    'dbus_message_set_serial) the entry is inserted and found but never removed, so a cancelled call '
+                    'is still notified and a duplicated reply completes a call twice', floor=6)
+        lib.hash_key_conversions_agree(prog, r)
+        r = ck.rule('C17.12', 'timeouts (and watches) are taken away from the main loop they were given to: when the '
+                    'timeout / watch functions of a connection are replaced, the previously registered remove function '
+                    'is called with the previously registered data and the new functions with the new data', 'PAIR',
+                    breaks='moving a connection to another main loop while calls are outstanding removes their timeouts '
+                    'from the new loop instead of the old one: the calls never time out and are never completed',
+                    floor=6)
+        lib.callbacks_paired_with_their_data(prog, r, [('_dbus_timeout_list_set_functions', 'dbus/dbus-timeout.c'),
+                                                       ('_dbus_watch_list_set_functions', 'dbus/dbus-watch.c')])
         from rules.C02 import c02_5
         lib.shared_rule(ck, prog, 'C17.9', 'the serial a reply is paired by is written into (and read from) the header in '
                         'the message\'s own byte order, like every other marshalling call on a message\'s bytes (shared '
